@@ -19,6 +19,10 @@ class Client(ModelObj):
         self.refs = {}
         self.weak = {}
         self.keep_refs = keep_refs
+        self.routes = {}
+        self.tmp_handles = []
+        self.boxed = {}
+        self.weak_boxed = {}
         it, w = sim.it, sim.w
         for a in actors:
             main = w.actors[a]["ref_cell"]
@@ -30,9 +34,75 @@ class Client(ModelObj):
             raise Unsupported("client %s has no reference to %s" % (self.name, a))
         return Ref(c, (), False)
 
+    # ---- type-erased routes (C16) -------------------------------------------------------
+    ROUTES = ("direct", "from_ref", "from_owned", "clone_boxed", "weak_upgrade")
+
+    def erased(self, it, actor, family, route):
+        """build a strong erased handle (`Box<dyn TellHandler>` / `AskHandler` / `ActorControl`) for
+        `actor` out of this client's own reference, through the route under test; returns the
+        BoxV (the client owns it and drops it after the operation)"""
+        from .builtins_std import pick_impl
+        w = self.sim.w
+        trait = {"tell": "TellHandler", "ask": "AskHandler", "control": "ActorControl"}[family]
+        weak = {"tell": "WeakTellHandler", "ask": "WeakAskHandler", "control": "WeakActorControl"}[family]
+        rf = self.ref(actor)
+
+        def conv(tr, arg):
+            name = pick_impl(w, it, "From", "from", [arg], tr)
+            if name is None:
+                raise Unsupported("no From impl into Box<dyn %s> for %r" % (tr, arg))
+            return it.call_body(w.prog.bodies[name], [arg])
+        if route == "from_ref":
+            return conv(trait, rf)
+        if route == "from_owned":
+            owned = w.call_trait_method(it, "ActorRef", "Clone", "clone", [rf])
+            return conv(trait, owned)
+        if route == "clone_boxed":
+            b = conv(trait, rf)
+            b2 = w.call(it, "<dyn %s as %s>::clone_boxed" % (trait, trait), [Ref(b.cell, (), False)], None)
+            it.drop_value(b)
+            return b2
+        if route == "weak_upgrade":
+            b = conv(trait, rf)
+            wk = w.call(it, "<dyn %s as %s>::downgrade" % (trait, trait), [Ref(b.cell, (), False)], None)
+            it.drop_value(b)
+            up = w.call(it, "<dyn %s as %s>::upgrade" % (weak, weak), [Ref(wk.cell, (), False)], None)
+            it.drop_value(wk)
+            if up.variant != "Some":
+                return None
+            return up.fields[0]
+        raise Unsupported("route " + route)
+
+    def start_erased(self, it, op, route):
+        w = self.sim.w
+        k = op[0]
+        fam = "control" if k in ("stop", "kill", "is_alive", "identity") else ("tell" if k.startswith("tell") else "ask")
+        h = self.erased(it, op[1], fam, route)
+        if h is None:
+            return ("val", "skipped:upgrade-failed")
+        self.tmp_handles.append(h)
+        recv = Ref(h.cell, (), False)
+        if fam == "control" and route == "from_ref" and k in ("stop", "kill"):
+            pass
+        trait = {"tell": "TellHandler", "ask": "AskHandler", "control": "ActorControl"}[fam]
+        meth = {"tell": "tell", "ask": "ask", "tell_t": "tell_with_timeout", "ask_t": "ask_with_timeout", "stop": "stop", "kill": "kill",
+                "is_alive": "is_alive", "identity": "identity"}[k]
+        args = [recv]
+        if fam != "control":
+            args.append(w.mk_msg(op[2]))
+        if k.endswith("_t"):
+            args.append(w.mk_duration(op[3]))
+        r = w.call(it, "<dyn %s as %s>::%s" % (trait, trait, meth), args, None)
+        if k in ("kill", "is_alive", "identity"):
+            return ("val", r)
+        return ("fut", r)
+
     def start(self, it, op):
         w = self.sim.w
         k = op[0]
+        route = self.routes.get(self.i) if self.routes else None
+        if route and route != "direct" and k in ("tell", "ask", "tell_t", "ask_t", "stop", "kill", "is_alive") and op[1] in self.refs and self.refs[op[1]].value is not MOVED:
+            return self.start_erased(it, op, route)
         if k in ("tell", "ask", "tell_t", "ask_t", "ask_join", "stop", "kill", "is_alive", "downgrade") and (
                 op[1] not in self.refs or self.refs[op[1]].value is MOVED):
             return ("val", "skipped:no-reference")
@@ -61,6 +131,32 @@ class Client(ModelObj):
         if k == "downgrade":
             self.weak[op[1]] = Cell(w.call_method(it, "ActorRef", "downgrade", [self.ref(op[1])]), "%s.weak[%s]" % (self.name, op[1]))
             return ("val", UNIT)
+        if k == "into_boxed":
+            # the client's reference is converted (by value) into a strong erased handle it keeps
+            c = self.refs[op[1]]
+            v, c.value = c.value, MOVED
+            from .builtins_std import pick_impl
+            tr = op[2]
+            name = pick_impl(w, it, "From", "from", [v], tr)
+            self.boxed[op[1]] = Cell(it.call_body(w.prog.bodies[name], [v]), "%s.boxed[%s]" % (self.name, op[1]))
+            return ("val", UNIT)
+        if k == "boxed_downgrade":
+            # keep only a weak erased handle
+            b = self.boxed[op[1]]
+            tr = op[2]
+            wk = w.call(it, "<dyn %s as %s>::downgrade" % (tr, tr), [Ref(b.value.cell, (), False)], None)
+            v, b.value = b.value, MOVED
+            it.drop_value(v)
+            self.weak_boxed[op[1]] = Cell(wk, "weakboxed")
+            return ("val", UNIT)
+        if k == "boxed_tell":
+            b = self.boxed[op[1]]
+            if b.value is MOVED:
+                return ("val", "skipped:no-handle")
+            return ("fut", w.call(it, "<dyn TellHandler as TellHandler>::tell", [Ref(b.value.cell, (), False), w.mk_msg(op[2])], None))
+        if k in ("upgrade", "weak_is_alive"):
+            a = w.actors[op[1]]
+            it.ex.event(ev="strong_count", actor=op[1], mailbox=a["mailbox"].tx_count, term=a["term"].tx_count, client=self.name, i=self.i)
         if k == "upgrade":
             r = w.call_method(it, "ActorWeak", "upgrade", [Ref(self.weak[op[1]], (), False)])
             if r.variant == "Some":
@@ -73,6 +169,37 @@ class Client(ModelObj):
             return ("val", w.call_method(it, "ActorRef", "is_alive", [self.ref(op[1])]))
         if k == "weak_is_alive":
             return ("val", w.call_method(it, "ActorWeak", "is_alive", [Ref(self.weak[op[1]], (), False)]))
+        if k == "identities":
+            # identity() through every kind of handle derived from this client's reference
+            a = op[1]
+            rf = self.ref(a)
+            out = []
+            out.append(w.call_method(it, "ActorRef", "identity", [rf]))
+            cl = Cell(w.call_trait_method(it, "ActorRef", "Clone", "clone", [rf]), "tmpclone")
+            out.append(w.call_method(it, "ActorRef", "identity", [Ref(cl, (), False)]))
+            wk = Cell(w.call_method(it, "ActorRef", "downgrade", [rf]), "tmpweak")
+            out.append(w.call_method(it, "ActorWeak", "identity", [Ref(wk, (), False)]))
+            wk2 = Cell(w.call_trait_method(it, "ActorWeak", "Clone", "clone", [Ref(wk, (), False)]), "tmpweak2")
+            out.append(w.call_method(it, "ActorWeak", "identity", [Ref(wk2, (), False)]))
+            up = w.call_method(it, "ActorWeak", "upgrade", [Ref(wk, (), False)])
+            if up.variant == "Some":
+                out.append(w.call_method(it, "ActorRef", "identity", [Ref(Cell(up.fields[0], "tmpup"), (), False)]))
+                it.drop_value(up.fields[0])
+            for fam, tr in (("tell", "TellHandler"), ("ask", "AskHandler"), ("control", "ActorControl")):
+                h = self.erased(it, a, fam, "from_ref")
+                if fam == "control":
+                    out.append(w.call(it, "<dyn ActorControl as ActorControl>::identity", [Ref(h.cell, (), False)], None))
+                    wkc = w.call(it, "<dyn ActorControl as ActorControl>::downgrade", [Ref(h.cell, (), False)], None)
+                    out.append(w.call(it, "<dyn WeakActorControl as WeakActorControl>::identity", [Ref(wkc.cell, (), False)], None))
+                    it.drop_value(wkc)
+                else:
+                    ctl = w.call(it, "<dyn %s as %s>::as_control" % (tr, tr), [Ref(h.cell, (), False)], None)
+                    out.append(w.call(it, "<dyn ActorControl as ActorControl>::identity", [ctl], None))
+                it.drop_value(h)
+            it.drop_value(cl.value)
+            it.drop_value(wk.value)
+            it.drop_value(wk2.value)
+            return ("val", Agg("array", "", out))
         if k == "yield":
             return ("fut", Yield())
         raise Unsupported("client op " + k)
@@ -83,7 +210,7 @@ class Client(ModelObj):
             if self.cur is None:
                 if self.i >= len(self.ops):
                     if not self.keep_refs:
-                        for c in self.refs.values():
+                        for c in list(self.boxed.values()) + list(self.weak_boxed.values()) + list(self.refs.values()):
                             if c.value is not MOVED:
                                 v, c.value = c.value, MOVED
                                 it.drop_value(v)
@@ -106,6 +233,8 @@ class Client(ModelObj):
 
     def finish_op(self, it, op, v):
         w = self.sim.w
+        while self.tmp_handles:
+            it.drop_value(self.tmp_handles.pop())
         self.results.append(v)
         it.ex.event(ev="op_done", client=self.name, i=self.i, op=[str(x) if not isinstance(x, (int, str)) else x for x in op],
                     result=w.describe(v), clock=self.sim.tick(), now=w.now if isinstance(w.now, int) else str(w.now), now_raw=w.now)
@@ -116,6 +245,10 @@ class Client(ModelObj):
             it.drop_value(self.cur)
         if self.keep_refs and self.i >= len(self.ops):
             return
+        for c in list(self.boxed.values()) + list(self.weak_boxed.values()):
+            if c.value is not MOVED:
+                v, c.value = c.value, MOVED
+                it.drop_value(v)
         for c in self.refs.values():
             if c.value is not MOVED:
                 v, c.value = c.value, MOVED
@@ -215,7 +348,7 @@ class Sim:
             k = ex.sched(names)
             kind, x = opts[k]
             if kind == "poll":
-                ex.event(ev="sched", task=x.name, clock=self.tick())
+                ex.event(ev="sched", task=x.name, clock=self.tick(), now_raw=w.now)
                 w.poll_task(it, x)
             else:
                 ex.event(ev="env", what=x[1], clock=self.tick())
